@@ -819,7 +819,7 @@ impl<P: HProblem> Obs<P> {
             Kind::RealSa | Kind::PermSa | Kind::RealLs | Kind::PermLs | Kind::RealIls | Kind::PermIls | Kind::RealRs | Kind::PermRs | Kind::RealRw | Kind::PermRw => Some((1, 1)),
             Kind::AntSystem | Kind::Mmas => Some((c.pu("num_ants") as usize + 1, c.pu("num_ants") as usize + 1)),
             Kind::Cro => Some((1, usize::MAX)),
-            Kind::GaArchive | Kind::EsArchive | Kind::DeVariants | Kind::GaVariants | Kind::EvalMix | Kind::BigInit | Kind::FailMutation | Kind::Measures => None,
+            Kind::GaArchive | Kind::EsArchive | Kind::DeVariants | Kind::GaVariants | Kind::EvalMix | Kind::BigInit | Kind::FailMutation | Kind::Measures | Kind::BoundaryMix => None,
         };
         match exp {
             Some((lo, hi)) if size < lo || size > hi => Some(if lo == hi { format!("{lo}") } else if hi == usize::MAX { format!(">= {lo}") } else { format!("{lo}..={hi}") }),
